@@ -1,5 +1,5 @@
 """C17 — a static resource map is a faithful, immutable mirror."""
-from harness import gen_tree, spec_tree
+from harness import gen_tree, spec_tree, spec_poptree
 
 MODEL = 'tree'
 RULE = ('seeded random resource trees (depth <= 4, identifier names incl. keywords and __private names, '
@@ -44,3 +44,25 @@ def stats(scenarios, impl_obs):
     d['absent_lookups'] = sum(1 for obs in impl_obs for o in obs
                               if o.startswith(('sitem raised', 'sgot raised')))
     return d
+
+
+# ---------------------------------------------------------------------------- snapshots of trees built by the populator
+class _PopStream(spec_poptree.Stream):
+    """a snapshot of a populated map (name clashes between directories and trimmed files, handles in several
+    layers, repeated population) answers like the map itself"""
+    PID = 'C17'
+    STATIC = True
+    KEEP = ('sitem', 'sgot', 'snode', 'end-sdump', 'sres', 'sunbound', 'unmodelled', 'item', 'got', 'res')
+
+
+def stream_for(lines):
+    return _PopStream if spec_poptree.is_pop_scenario(lines) else None
+
+
+def extra_checks(ctx):
+    spec_poptree.run_stream(
+        ctx, _PopStream, 200 if ctx.tier == 'quick' else 3000,
+        'the C16 scenarios with, after every population, a snapshot of the populated map: its content probed with '
+        'get() against the dump of the map, and the keys of files and directories (with and without extension, '
+        'absent ones) through m.get / snapshot.get and m[..][..] / snapshot[..] / snapshot.attr side by side')
+
